@@ -99,8 +99,15 @@ ELEM_TYPES = {
     "long": ("xs:long", ["9999999999"]),
     "u_int_string": ("u_int_string", ["5", "word"]),
     "u_date_int": ("u_date_int", ["2020-02-02", "12"]),
+    # xs:list types (token lists: ONE element per list; a repeating element is a list of token lists); never the empty
+    # list (finding C02-empty-list-element-dropped)
+    "l_int": ("l_int", ["1 2", "3 4 5", "6"]),
+    "l_date": ("l_date", ["2020-01-01 1999-12-31Z", "2021-02-03"]),
+    "nmtokens": ("xs:NMTOKENS", ["a b", "c", "d e f"]),
 }
-UNIONS = {"u_int_string": "xs:int xs:string", "u_date_int": "xs:date xs:int"}
+LIST_TYPES = ("l_int", "l_date", "nmtokens")
+UNIONS = {"u_int_string": '<xs:union memberTypes="xs:int xs:string"/>', "u_date_int": '<xs:union memberTypes="xs:date xs:int"/>',
+          "l_int": '<xs:list itemType="xs:int"/>', "l_date": '<xs:list itemType="xs:date"/>'}  # the named simple types
 
 
 def assign_types(rng, p, types=None):
@@ -143,7 +150,7 @@ def particle_xsd(p, ns="urn:t", qualified=True, types=None, refs=(), subs=()):
     tns = f' targetNamespace="{ns}" xmlns="{ns}"' if ns else ""
     form = ' elementFormDefault="qualified"' if qualified and ns else ""
     unions = "".join(
-        f' <xs:simpleType name="{u}"><xs:union memberTypes="{members}"/></xs:simpleType>\n'
+        f' <xs:simpleType name="{u}">{members}</xs:simpleType>\n'
         for u, members in UNIONS.items()
         if u in {types.get(n) for n in types}
     )
@@ -306,7 +313,7 @@ def gschema_xsd(schema, ns="urn:t", types=None, defs_last=False):
     tns = f' targetNamespace="{ns}" xmlns="{ns}" elementFormDefault="qualified"' if ns else ""
     out = f'<?xml version="1.0"?>\n<xs:schema xmlns:xs="http://www.w3.org/2001/XMLSchema"{tns}>\n'
     out += "".join(
-        f' <xs:simpleType name="{u}"><xs:union memberTypes="{members}"/></xs:simpleType>\n'
+        f' <xs:simpleType name="{u}">{members}</xs:simpleType>\n'
         for u, members in UNIONS.items()
         if u in set(types.values())
     )
